@@ -349,3 +349,15 @@ func ParseSocksAddr(b []byte) (host string, port int, n int, err error) {
 	}
 	return "", 0, 0, fmt.Errorf("bad atyp %d", b[0])
 }
+
+// SaltPrefixes are openings a client may give its salt (the salt is the client's choice; Outline clients have a
+// documented "prefix" feature that makes the first bytes of a connection look like another protocol).
+var SaltPrefixes = []string{"", "POST ", "GET ", "HEAD ", "PUT ", "OPTIONS ", "CONNECT ", "HTTP/1.1 ", "SSH-2.0\r\n",
+	"\x16\x03\x01\x00\xa8\x01\x01", "\x16\x03\x03\x40\x00\x02", "\x13\x03\x03\x3f", "\x05\x01\x00", "\x00\x00\x00\x00\x00\x00", "\xff\xff\xff\xff\xff\xff"}
+
+// PrefixedSalt returns n bytes that are a pure function of seed and start with SaltPrefixes[i] (cut to n).
+func PrefixedSalt(seed int64, n, i int) []byte {
+	b := DetBytes(seed, n)
+	copy(b, SaltPrefixes[i%len(SaltPrefixes)])
+	return b
+}
